@@ -12,3 +12,9 @@ for v in ctx.violations:
 print(pid, 'evaluations', ctx.cov.get('evaluations'), 'nontrivial', ctx.cov.get('distinct_nontrivial'), 'seconds', ctx.cov.get('sweep_seconds'))
 for s, n in cnt.most_common():
     print('  %5d  %s :: %s' % (n, s, ex[s][:160]))
+
+import json, os
+out = {}
+for v in ctx.violations:
+    out.setdefault(v['signature'], []).append(v)
+json.dump({k: vs[:3] for k, vs in out.items()}, open('/tmp/sigs_%s_%s_%d.json' % (pid, tier, seed), 'w'), default=str)
